@@ -83,6 +83,7 @@ type JobResult struct {
 	Wall         time.Duration
 	Samples      []Tape // sampled feasible paths with a model, for translator validation
 	Recovered    int
+	RefineNotes  []string
 	NeedExact    bool // a violation under the CRC abstraction could not be turned into a model with real CRC values
 	Refined      bool // re-run with exact CRC after the abstraction reported a violation
 	AbstractCRC  int  // CRC16 calls replaced by an uninterpreted value
@@ -94,6 +95,7 @@ type RunOpts struct {
 	OpenKnown   map[string]bool
 	Seed        int64
 	SampleEvery int // sample every n-th completed path for native validation (0 = none)
+	JobBudget   time.Duration // wall-clock budget per job (0 = none); exceeding it ends the job as inconclusive
 	Cross       int // cross-check every n-th query
 	Log         func(string)
 }
@@ -107,6 +109,7 @@ func (e *Engine) RunJob(job Job, sol *smt.Solver, opts RunOpts) *JobResult {
 		r2 := e.runJob(exact, sol, opts)
 		r2.Wall += res.Wall
 		r2.Refined = true
+		r2.RefineNotes = res.RefineNotes
 		return r2
 	}
 	return res
@@ -138,6 +141,10 @@ func (e *Engine) runJob(job Job, sol *smt.Solver, opts RunOpts) *JobResult {
 		item := work[len(work)-1]
 		work = work[:len(work)-1]
 		prefix := item.Prefix
+		if opts.JobBudget > 0 && time.Since(t0) > opts.JobBudget {
+			res.Inconclusive = append(res.Inconclusive, fmt.Sprintf("job time budget %v exhausted after %d paths (%d prefixes unexplored)", opts.JobBudget, res.Paths, len(work)+1))
+			break
+		}
 		if res.Paths >= job.MaxPath {
 			res.Inconclusive = append(res.Inconclusive, fmt.Sprintf("path budget %d exhausted", job.MaxPath))
 			break
@@ -180,6 +187,7 @@ func (e *Engine) runJob(job Job, sol *smt.Solver, opts RunOpts) *JobResult {
 		res.Inconclusive = append(res.Inconclusive, x.inconcl...)
 		if x.needExact {
 			res.NeedExact = true
+			res.RefineNotes = append(res.RefineNotes, x.refineFail...)
 		}
 		for _, v := range x.viol {
 			key := v.Kind + "|" + v.Label + "|" + v.Where
